@@ -79,8 +79,13 @@ func c06Unit(c *RunCtx, unit int) {
 		var ch *sim.Step
 		usedTok := ""
 		if via == "recover" {
+			// the link is opened on a clean browser, or on one that carries the bystander's session
+			rb := 4
+			if rememberLoaded && r.Intn(2) == 0 {
+				rb = 3
+			}
 			step(act("recover_start", 4, target, ""))
-			a := act("recover_end", 4, target, "current")
+			a := act("recover_end", rb, target, "current")
 			a.Cls2 = newCls
 			ch = step(a)
 			usedTok = a.Secret
@@ -180,8 +185,11 @@ func c06Unit(c *RunCtx, unit int) {
 					return
 				}
 			}
-			// bystander's cookie still works
+			// bystander's cookie (the value issued before the change) still works; it is re-inserted
+			// because a reset performed on the bystander's own browser legitimately clears that
+			// browser's rm cookie — the property is about the token, not about that jar
 			step(act("dropsid", 3, -9, ""))
+			s.Br[3].B.Jar["rm"] = jars[3]
 			if st := step(act("visit", 3, -9, "", "route", "/protected/plain")); st.UIDOut != V.PID {
 				fail("bystander-cookie-dead", "bystander %q's remember cookie stopped working after %q's password change", V.PID, U.PID)
 				return
